@@ -46,8 +46,9 @@ type Val struct {
 	Mask  *big.Int
 	Fn    *ssa.Function
 	Bind  []Val
-	CLen  int64 // statically known slice length (+1), 0 = unknown
-	Math  bool  // mathematical integer (spec)
+	Dig   []string // base-256 digits (little endian) of a non-negative integer value: value == sum Dig[i]*256^i
+	CLen  int64    // statically known slice length (+1), 0 = unknown
+	Math  bool     // mathematical integer (spec)
 }
 
 type Def struct {
@@ -118,6 +119,7 @@ type VC struct {
 	ghostSorts  map[string]string
 	heap0       Heap
 	topArgs     []Val
+	digCache    map[string][]string
 }
 
 func NewVC(e *Engine, top *ssa.Function) *VC {
@@ -563,7 +565,7 @@ func (vc *VC) oblige(kind, name string, tags []string, guard, cond string, fn *s
 
 // ---------------------------------------------------------------- script
 
-const prelude = `(set-logic ALL)
+const preludeBase = `(set-logic ALL)
 (declare-sort Str 0)
 (declare-sort Flt 0)
 (declare-datatypes ((Slice 0)) (((mk-slice (s-arr Int) (s-off Int) (s-len Int) (s-cap Int)))))
@@ -573,7 +575,9 @@ const prelude = `(set-logic ALL)
 (declare-fun sconcat (Str Str) Str)
 (declare-fun ssub (Str Int Int) Str)
 (declare-const flt_zero Flt)
-(assert (forall ((s Str)) (! (<= 0 (slen s)) :pattern ((slen s)))))
+`
+
+const preludeStr = `(assert (forall ((s Str)) (! (<= 0 (slen s)) :pattern ((slen s)))))
 (assert (forall ((s Str) (i Int)) (! (and (<= 0 (sat s i)) (<= (sat s i) 255)) :pattern ((sat s i)))))
 (assert (forall ((a Str) (b Str)) (! (= (slen (sconcat a b)) (+ (slen a) (slen b))) :pattern ((sconcat a b)))))
 (assert (forall ((s Str) (i Int) (j Int)) (! (=> (and (<= 0 i) (<= i j) (<= j (slen s))) (= (slen (ssub s i j)) (- j i))) :pattern ((ssub s i j)))))
@@ -651,7 +655,9 @@ func (vc *VC) scriptNeed(o *Obligation, wantModel bool) (string, map[string]bool
 		}
 	}
 	var b strings.Builder
-	b.WriteString(prelude)
+	b.WriteString(preludeBase)
+	strAx := b.Len()
+	_ = strAx
 	// struct datatypes, in registration order reversed dependencies: registration is pre-order, so emit in an order where
 	// nested come first: sort by dependency
 	emitted := map[string]bool{}
@@ -713,12 +719,17 @@ func (vc *VC) scriptNeed(o *Obligation, wantModel bool) (string, map[string]bool
 		} else {
 			fmt.Fprintf(&b, "(define-fun %s () %s %s)\n", d.Name, d.Sort, d.Body)
 		}
-		if d.Rng != "" {
+	}
+	for _, d := range vc.defs {
+		if need[d.Name] && d.Rng != "" {
 			fmt.Fprintf(&b, "(assert %s)\n", d.Rng)
 		}
 	}
 	for i := 0; i < o.Cut; i++ {
 		if used[i] {
+			if o.Kind == "cover" && (strings.Contains(vc.assumes[i].Body, "(forall ") || strings.Contains(vc.assumes[i].Body, "(exists ")) {
+				continue // cover queries check the quantifier-free part of the assumptions
+			}
 			fmt.Fprintf(&b, "(assert %s) ; %s\n", sImp(vc.assumes[i].Guard, vc.assumes[i].Body), vc.assumes[i].Why)
 		}
 	}
@@ -731,5 +742,10 @@ func (vc *VC) scriptNeed(o *Obligation, wantModel bool) (string, map[string]bool
 	if wantModel {
 		b.WriteString("(get-model)\n")
 	}
-	return b.String(), need
+	out := b.String()
+	body := out[len(preludeBase):]
+	if o.Kind != "cover" && (strings.Contains(body, "(slen ") || strings.Contains(body, "(sat ") || strings.Contains(body, "(sconcat ") || strings.Contains(body, "(ssub ")) {
+		out = preludeBase + preludeStr + body
+	}
+	return out, need
 }
